@@ -21,7 +21,7 @@ ASSUMPTIONS = [
     "sequential consistency at the granularity of Python attribute loads/stores and of the labelled lock, condition, socket and trigger operations (DESIGN.md 4.3); pre-emption inside C code is not modelled",
     "the client keeps reading: the socket is write-ready whenever it is polled for writing; the poll timeout does not exist (select blocks until a descriptor is ready or the trigger was pulled)",
     "maintenance() and cancel() (server shutdown) are outside the model; one channel per I/O loop",
-    "outbuf_high_watermark >= 1, and the runs are outside the three finding classes (a worker executing send_continue; the exception branch of _flush_outbufs_below_high_watermark entered after handle_close; send_bytes > outbuf_high_watermark, which spins instead of becoming quiescent)",
+    "outbuf_high_watermark >= 1, and the runs are outside the three finding classes (the flush of a worker-side send_continue raises; the exception branch of _flush_outbufs_below_high_watermark entered after handle_close; send_bytes > outbuf_high_watermark, which spins instead of becoming quiescent)",
 ]
 
 EXPLORE_QUICK = ["0 1 2 0 1 1 1.3 400000 1 r", "0 2 2 1 1 2 1.3 400000 0 r.rr", "1 1 2 0 2 1 2 400000 1 rr"]
@@ -53,7 +53,7 @@ def scenario_stream(rng, n):
         elif k < 0.85:
             yield "sendbytes>watermark", cw.gen_scenario(rng, hw_choices=(1, 60, 120), sb_choices=(150, 400), sb_any=True)
         else:
-            sc = cw.gen_scenario(rng, faults=False)
+            sc = cw.gen_scenario(rng, faults=rng.random() < 0.5)
             sc["reqs"] = [{"path": "/a", "chunks": [rng.choice([10, 200])], "cl": True},
                           {"path": "/b", "chunks": [5], "cl": True, "expect": True}]
             sc["segs"] = [[0, 1], [2]]
@@ -78,7 +78,6 @@ class Book:
         self.all_monitor = True
         self.inv_ok = True
         self.validated = 0
-        self.tainted_divergent = 0
         self.steps_fired = 0
         self.states_compared = 0
 
@@ -115,9 +114,6 @@ class Book:
             r = cw.parse_trace_answer(ans)
             rep = {"scenario": sc, "choices": choices, "failing_input_found": True}
             if not r["ok"]:
-                if r["tainted"]:
-                    self.tainted_divergent += 1      # inside the F18 class the model is not claimed exact
-                    continue
                 self.all_conform = False
                 rep.update({"expected": "every labelled operation of the real run is the next label of the model",
                             "observed": r["msg"][:600]})
@@ -130,13 +126,13 @@ class Book:
             self.states_compared += int(f["compared"])
             if f.get("pending") != "0":
                 self.stats["ended-mid-step"] += 1
-            if int(f.get("invbad", "0")) and not r["tainted"]:
+            if int(f.get("invbad", "0")):
                 self.inv_ok = False
                 rep.update({"expected": "inv_ok (the proved invariant) on every model state visited",
                             "observed": "inv_ok false on %s state(s)" % f["invbad"]})
                 ctx.report("inv:" + _hash(sc), "the invariant of Proof/ChanWakeInv.v fails on a state reached by a real run", rep)
             # the model's verdict about the end state against the monitor's
-            if cls in ("quiescent", "finished") and f.get("pending") == "0" and not r["tainted"]:
+            if cls in ("quiescent", "finished") and f.get("pending") == "0":
                 m_q = f["quiescent"] == "1"
                 m_ok = f["c05"] == "1"
                 if cls == "quiescent" and (not m_q or m_ok != (not probs)):
@@ -152,7 +148,7 @@ class Book:
 
 # One replay (scenario + schedule) per finding class, found by this check's own search; re-run on every
 # check so that a finding that stops reproducing is noticed.
-FINDING_REPLAYS = {"kf_c05_park_after_close": {"choices": [0, 0, 0, 1, 0, 1, 0, 3, 1, 2, 1, 1, 0, 1, 2, 0, 0, 0, 0, 0, 0, 0, 0, 0, 0, 0, 0, 0, 0, 0, 0, 0, 0, 0, 0, 0, 0, 0, 0, 0, 0, 0, 1, 0, 1, 1, 0, 0, 0, 1, 0, 1, 0, 0, 1, 1, 1, 1, 0, 1, 0, 0, 0, 0, 0, 0, 0, 1, 0, 1, 0, 1, 0, 1, 0, 1, 1, 1, 0, 1, 0, 0, 1, 0, 1, 0, 0, 0, 1, 0, 1, 0, 0, 0, 1, 1, 1, 0, 0, 1, 0, 0, 1, 1, 1, 1, 1, 1, 1, 0, 0, 0, 1, 0, 0, 0, 0, 0, 1, 0, 0, 0, 0, 0, 0], "scenario": {"adj": {"channel_request_lookahead": 0, "outbuf_high_watermark": 120, "send_bytes": 1}, "client_close": True, "gran": "attrs", "poll": False, "recv_faults": {}, "reqs": [{"chunks": [40], "cl": False, "close": False, "expect": False, "iter": False, "path": "/r0", "v": "1.1"}, {"chunks": [200], "cl": False, "close": False, "expect": False, "iter": True, "path": "/r1", "v": "1.1"}, {"chunks": [40, 5, 1], "cl": True, "close": False, "expect": False, "iter": True, "path": "/r2", "v": "1.1"}], "segs": "one", "send_plan": [["err", 113], 90, ["err", 113], 0, ["err", 113], 0, ["err", 32], 20, 0], "sndbuf": 100, "workers": 2}}, "kf_c05_sendbytes_gt_watermark": {"choices": [], "max_steps": 600, "scenario": {"adj": {"channel_request_lookahead": 1, "outbuf_high_watermark": 60, "send_bytes": 400}, "client_close": False, "gran": "locks", "poll": False, "recv_faults": {}, "reqs": [{"chunks": [5], "cl": False, "close": False, "expect": False, "iter": True, "path": "/r0", "v": "1.1"}], "segs": "one", "send_plan": [0, 20], "sndbuf": 30, "workers": 1}}, "kf_c05_watermark0": {"choices": [0, 0, 0, 1, 0, 1, 0, 1, 0, 2, 2, 0, 0, 0, 0, 0, 0, 0, 0, 0, 0, 0, 0, 0, 0, 0, 0, 0, 0, 0, 0, 0, 0, 0, 0], "scenario": {"adj": {"channel_request_lookahead": 2, "outbuf_high_watermark": 0, "send_bytes": 1}, "client_close": False, "gran": "locks", "poll": False, "recv_faults": {}, "reqs": [{"chunks": [200, 40, 40], "cl": False, "close": False, "expect": False, "iter": True, "path": "/r0", "v": "1.1"}, {"chunks": [1], "cl": True, "close": False, "expect": False, "iter": False, "path": "/r1", "v": "1.1"}, {"chunks": [300, 40, 200], "cl": True, "close": False, "expect": False, "iter": True, "path": "/r2", "v": "1.0"}], "segs": "one", "send_plan": [["err", 32], ["err", 32]], "sndbuf": 65536, "workers": 2}}, "kf_c05_worker_continue": {"choices": [0, 0, 0, 0, 1, 2, 0, 2, 1, 1, 0, 0, 1, 0, 1, 0, 0, 0, 0, 0, 0, 0, 0, 0, 0, 0, 0, 0, 0, 0, 0, 0, 0, 0, 0, 0, 0, 0, 0, 0, 1, 0, 0, 0, 0, 1, 0, 0, 0, 1, 0, 0, 1, 1, 0, 1, 1, 0, 1, 0, 0, 0, 0, 1, 1, 0, 0, 1, 0, 1, 1, 0, 1, 0, 0, 0, 1, 1, 0, 0, 1, 0, 0, 0, 0, 1, 1, 1, 0, 0, 1, 0, 0, 0, 0, 1, 1, 0, 0, 1, 0, 0, 0, 1, 1, 1, 0, 0, 1, 0, 0, 0, 0, 0, 1, 1, 0, 0, 0, 0, 0, 1, 0, 0, 0, 1, 0, 0, 1, 0, 0, 0, 0, 0, 0, 0], "scenario": {"adj": {"channel_request_lookahead": 0, "outbuf_high_watermark": 16777216, "send_bytes": 1}, "client_close": True, "gran": "attrs", "poll": False, "recv_faults": {}, "reqs": [{"chunks": [200], "cl": True, "path": "/a"}, {"chunks": [5], "cl": True, "expect": True, "path": "/b"}], "segs": [[0, 1], [2]], "send_plan": [None, 20, 20, 0, 90, 1, 90, 1, None], "sndbuf": 65536, "workers": 1}}}
+FINDING_REPLAYS = {"kf_c05_continue_raises": {"choices": [0, 0, 0, 0, 1, 0, 0, 0, 0, 0, 0, 0, 0, 0, 0, 0, 1, 0, 0, 0, 0, 0, 0, 0, 0, 0, 0, 0, 0, 0, 0], "scenario": {"adj": {"channel_request_lookahead": 0, "outbuf_high_watermark": 16777216, "send_bytes": 150}, "client_close": False, "gran": "locks", "poll": False, "recv_faults": {}, "reqs": [{"chunks": [10], "cl": True, "path": "/a"}, {"chunks": [5], "cl": True, "expect": True, "path": "/b"}], "segs": [[0, 1], [2]], "send_plan": [["err", 113], None, 0, ["err", 113], 0], "sndbuf": 30, "workers": 1}}, "kf_c05_park_after_close": {"choices": [0, 0, 0, 1, 0, 1, 0, 3, 1, 2, 1, 1, 0, 1, 2, 0, 0, 0, 0, 0, 0, 0, 0, 0, 0, 0, 0, 0, 0, 0, 0, 0, 0, 0, 0, 0, 0, 0, 0, 0, 0, 0, 1, 0, 1, 1, 0, 0, 0, 1, 0, 1, 0, 0, 1, 1, 1, 1, 0, 1, 0, 0, 0, 0, 0, 0, 0, 1, 0, 1, 0, 1, 0, 1, 0, 1, 1, 1, 0, 1, 0, 0, 1, 0, 1, 0, 0, 0, 1, 0, 1, 0, 0, 0, 1, 1, 1, 0, 0, 1, 0, 0, 1, 1, 1, 1, 1, 1, 1, 0, 0, 0, 1, 0, 0, 0, 0, 0, 1, 0, 0, 0, 0, 0, 0], "scenario": {"adj": {"channel_request_lookahead": 0, "outbuf_high_watermark": 120, "send_bytes": 1}, "client_close": True, "gran": "attrs", "poll": False, "recv_faults": {}, "reqs": [{"chunks": [40], "cl": False, "close": False, "expect": False, "iter": False, "path": "/r0", "v": "1.1"}, {"chunks": [200], "cl": False, "close": False, "expect": False, "iter": True, "path": "/r1", "v": "1.1"}, {"chunks": [40, 5, 1], "cl": True, "close": False, "expect": False, "iter": True, "path": "/r2", "v": "1.1"}], "segs": "one", "send_plan": [["err", 113], 90, ["err", 113], 0, ["err", 113], 0, ["err", 32], 20, 0], "sndbuf": 100, "workers": 2}}, "kf_c05_sendbytes_gt_watermark": {"choices": [], "max_steps": 600, "scenario": {"adj": {"channel_request_lookahead": 1, "outbuf_high_watermark": 60, "send_bytes": 400}, "client_close": False, "gran": "locks", "poll": False, "recv_faults": {}, "reqs": [{"chunks": [5], "cl": False, "close": False, "expect": False, "iter": True, "path": "/r0", "v": "1.1"}], "segs": "one", "send_plan": [0, 20], "sndbuf": 30, "workers": 1}}, "kf_c05_watermark0": {"choices": [0, 0, 0, 1, 0, 1, 0, 1, 0, 2, 2, 0, 0, 0, 0, 0, 0, 0, 0, 0, 0, 0, 0, 0, 0, 0, 0, 0, 0, 0, 0, 0, 0, 0, 0], "scenario": {"adj": {"channel_request_lookahead": 2, "outbuf_high_watermark": 0, "send_bytes": 1}, "client_close": False, "gran": "locks", "poll": False, "recv_faults": {}, "reqs": [{"chunks": [200, 40, 40], "cl": False, "close": False, "expect": False, "iter": True, "path": "/r0", "v": "1.1"}, {"chunks": [1], "cl": True, "close": False, "expect": False, "iter": False, "path": "/r1", "v": "1.1"}, {"chunks": [300, 40, 200], "cl": True, "close": False, "expect": False, "iter": True, "path": "/r2", "v": "1.0"}], "segs": "one", "send_plan": [["err", 32], ["err", 32]], "sndbuf": 65536, "workers": 2}}}
 
 
 def run(ctx):
@@ -187,7 +183,7 @@ def run(ctx):
     t_build = time.time() - t0
 
     # (c) real code: seeded random and PCT schedules
-    n_random = 6000 if thorough else 500
+    n_random = 4000 if thorough else 500
     for kind, sc in scenario_stream(rng, n_random):
         pname, pol = cw.gen_policy(rng)
         w, cls, probs = cw.run_one(sc, policy=pol)
@@ -198,7 +194,7 @@ def run(ctx):
     for sc in cw.tiny_scenarios():
         def on_world(w, cls, probs, sc=sc):
             book.add("tiny", "exhaustive", sc, w, cls, probs)
-        res = cw.explore_tiny(sc, 2 if thorough else 1, 2500 if thorough else 50, on_world)
+        res = cw.explore_tiny(sc, 2 if thorough else 1, 1500 if thorough else 50, on_world)
         exhaustive.append({"requests": len(sc["reqs"]), "poll2": sc["poll"], "runs": res["runs"],
                            "per_preemption_level": res["per_preemption_level"], "truncated": res["truncated"]})
     book.flush()
@@ -214,7 +210,7 @@ def run(ctx):
         else:
             ctx.notes.append("finding %s no longer reproduces with its stored replay (now: %s %s)" % (kf, cls, probs))
 
-    ctx.oblige("K-chan: every real trace outside the F18 class is a run of Model/ChanWake.v with equal abstract state after every operation",
+    ctx.oblige("K-chan: every real trace is a run of Model/ChanWake.v with equal abstract state after every operation",
                book.all_conform and book.validated > 0, "validated=%d" % book.validated)
     ctx.oblige("K-verdict: the model's end state (quiescent, c05_ok) agrees with the monitor on the real end state",
                book.all_verdicts)
@@ -239,7 +235,6 @@ def run(ctx):
         "traces_validated_against_impl": book.validated,
         "model_steps_fired": book.steps_fired,
         "abstract_states_compared": book.states_compared,
-        "traces_divergent_inside_F18_class": book.tainted_divergent,
         "scenario_kinds": dict(book.kinds),
         "schedule_policies": dict(book.policies),
         "end_states": {k: v for k, v in book.stats.items()},
